@@ -379,7 +379,10 @@ class Explorer:
         self._last_model = None
         self._consts = {}
         self._vcount = {}
-        self.stop_after_violations = 25
+        self.stop_after_violations = 8
+        self.abort_shard = False
+        self._busy = 0
+        self._pending_budget = False
         self.levels = 0       # solver push levels == decisions of the current path asserted so far
         self.kept_levels = 0  # levels retained from the previous path (shared prefix)
         self.ops = 0          # solver.add operations outside decisions, in path order
@@ -422,6 +425,13 @@ class Explorer:
             pass
 
     def model(self):
+        self._enter()
+        try:
+            return self._model_impl()
+        finally:
+            self._leave()
+
+    def _model_impl(self):
         if self._model is None:
             r = self._check()
             if r != "sat":
@@ -514,6 +524,13 @@ class Explorer:
 
     # ---------------------------------------------------------------- decisions
     def decide(self, cond, payload=None):
+        self._enter()
+        try:
+            return self._decide_impl(cond, payload)
+        finally:
+            self._leave()
+
+    def _decide_impl(self, cond, payload=None):
         """cond must be simplified (all proxy constructors simplify)."""
         if z3.is_true(cond):
             return True
@@ -552,6 +569,13 @@ class Explorer:
         return side
 
     def assume(self, cond):
+        self._enter()
+        try:
+            return self._assume_impl(cond)
+        finally:
+            self._leave()
+
+    def _assume_impl(self, cond):
         if not is_sym(cond):
             if not cond:
                 raise Infeasible()
@@ -609,6 +633,15 @@ class Explorer:
 
     # ---------------------------------------------------------------- assertions
     def check(self, cond, msg, **ctx):
+        self._enter()
+        try:
+            return self._check_impl(cond, msg, **ctx)
+        finally:
+            self._leave()
+
+    def _check_impl(self, cond, msg, **ctx):
+        if ctx.pop("fatal", False) and not is_sym(cond) and not cond:
+            self.abort_shard = True  # an expensive violation (e.g. non-termination): do not repeat it path after path
         self.stats["checks"] += 1
         if not is_sym(cond):
             if not cond:
@@ -656,7 +689,19 @@ class Explorer:
 
     # ---------------------------------------------------------------- driver
     def _alarm(self, *_):
+        if self._busy:  # never unwind out of the middle of a solver operation (push/add/check/pop must stay balanced)
+            self._pending_budget = True
+            return
         raise PathBudget()
+
+    def _enter(self):
+        self._busy += 1
+
+    def _leave(self):
+        self._busy -= 1
+        if not self._busy and self._pending_budget:
+            self._pending_budget = False
+            raise PathBudget()
 
     def run_path(self, fn):
         global _CUR
@@ -666,6 +711,8 @@ class Explorer:
         self.ops = 0
         self._model = None
         self._reached = False
+        self._busy = 0
+        self._pending_budget = False
         self.stats["paths"] += 1
         use_alarm = self.path_seconds and hasattr(signal, "SIGPROF")
         if use_alarm:  # CPU-time budget of this process (robust against a loaded machine)
@@ -728,7 +775,7 @@ class Explorer:
         floor = len(self.trail)
         while True:
             self.run_path(fn)
-            if self.stats.get("violations", 0) >= self.stop_after_violations:
+            if self.stats.get("violations", 0) >= self.stop_after_violations or self.abort_shard:
                 # a violation is established; do not spend the budget on the rest of this shard
                 if self._backtrack(floor):
                     self.inconclusive.append("shard abandoned after %d violations" % self.stats["violations"])
@@ -810,6 +857,7 @@ class ConcreteExplorer:
         return x
 
     def check(self, cond, msg, **ctx):
+        ctx.pop("fatal", None)
         self.stats["checks"] += 1
         if not cond:
             self.violations.append(Violation(message=msg, assignment=dict(self.a),
